@@ -1,10 +1,13 @@
 #!/bin/sh
-# usage: tools/try.sh <twin-or-seed-name> [property ...]   -- apply the patch to a scratch clone and run the checks
+# usage: tools/try.sh [twins/|seeded/]<name> [property ...]   -- apply the patch to a scratch clone and run the checks
 n=$1; shift
+case $n in
+  twins/*|seeded/*) p=/verif/$n/patch.diff; n=$(basename $n);;
+  *) p=/verif/twins/$n/patch.diff; [ -f $p ] || p=/verif/seeded/$n/patch.diff;;
+esac
 d=/dev/shm/dbg_$n
 rm -rf $d; git clone -q /repo $d
-p=/verif/twins/$n/patch.diff; [ -f $p ] || p=/verif/seeded/$n/patch.diff
-git -C $d apply $p || git -C $d apply -3 $p || { echo "patch does not apply"; exit 3; }
+git -C $d apply $p 2>/dev/null || git -C $d apply -3 $p || { echo "patch does not apply"; exit 3; }
 cd /verif
 if [ $# -eq 0 ]; then EMSA_NO_EVIDENCE=1 /venv/bin/python -m emsa.run --all --repo $d | grep -v "^C[0-9][0-9] quick\|KNOWN-FINDING"; else
 for P in "$@"; do EMSA_NO_EVIDENCE=1 /venv/bin/python -m emsa.run --property $P --repo $d | grep -v "KNOWN-FINDING"; done; fi
